@@ -176,6 +176,14 @@ def _iter_data(data: t.Mapping[str, t.Any]) -> t.Iterator[tuple[str, t.Any]]:
 _TAnyMultiDict = t.TypeVar("_TAnyMultiDict", bound="MultiDict[t.Any, t.Any]")
 
 
+def _quote_url_syntax(path: str) -> str:
+    """PATH_INFO and SCRIPT_NAME are already unquoted. Quote the characters
+    that :class:`EnvironBuilder` would read as URL syntax when it is given the
+    value as a path again.
+    """
+    return path.replace("%", "%25").replace("?", "%3F").replace("#", "%23")
+
+
 class EnvironBuilder:
     """This class can be used to conveniently create a WSGI environment
     for testing purposes.  It can be used to quickly create WSGI environments
@@ -407,11 +415,11 @@ class EnvironBuilder:
         """
         headers = Headers(EnvironHeaders(environ))
         out = {
-            "path": _wsgi_decoding_dance(environ["PATH_INFO"]),
+            "path": _quote_url_syntax(_wsgi_decoding_dance(environ["PATH_INFO"])),
             "base_url": cls._make_base_url(
                 environ["wsgi.url_scheme"],
                 headers.pop("Host"),
-                _wsgi_decoding_dance(environ["SCRIPT_NAME"]),
+                _quote_url_syntax(_wsgi_decoding_dance(environ["SCRIPT_NAME"])),
             ),
             "query_string": _wsgi_decoding_dance(environ["QUERY_STRING"]),
             "method": environ["REQUEST_METHOD"],
